@@ -142,6 +142,13 @@ pub fn generate_sel(seed: u64, tier: &str, sink: &mut Sink, only_refusal_bodies:
         });
     };
     if only_refusal_bodies {
+        // a refusal that DECLARES its (huge) length: the cut must not follow the declaration
+        for (declared, len) in [(4usize << 20, 4usize << 20), (usize::MAX, 2 << 20), (20 * cap, 3 * cap)] {
+            let body: Vec<u8> = (0..len).map(|i| (i % 249) as u8).collect();
+            let head = format!("HTTP/1.1 407 Proxy Authentication Required\r\nContent-Length: {}\r\n\r\n", declared).into_bytes();
+            run(407, head.clone(), "valid", body.clone(), 0, 0, true, &mut rng, sink);
+            run(407, head, "valid", body, 2, 3, false, &mut rng, sink);
+        }
         for len in [cap - 1, cap, cap + 1, 3 * cap, 1 << 20, 4 << 20] {
             let body: Vec<u8> = (0..len).map(|i| (i % 251) as u8).collect();
             for one in [true, false] {
@@ -177,6 +184,12 @@ pub fn generate_sel(seed: u64, tier: &str, sink: &mut Sink, only_refusal_bodies:
     }
     for g in [&b"\r\n\r\n"[..], b"HTTP/1.1 abc\r\n\r\n", b"SSH-2.0-OpenSSH\r\n", b"HTTP/1.1 20\r\n\r\n", b"\x16\x03\x01\x00\x05hello", b"HTTP/1.1 200\nno-colon-line\r\n\r\n"] {
         run(200, g.to_vec(), "garbage", vec![], 0, 0, true, &mut rng, sink);
+    }
+    // refusal replies that declare a large Content-Length
+    for (declared, len) in [(1usize << 20, 1usize << 20), (usize::MAX, 64 * 1024)] {
+        let body: Vec<u8> = (0..len).map(|i| (i % 249) as u8).collect();
+        let head = format!("HTTP/1.1 407 Proxy Authentication Required\r\nContent-Length: {}\r\n\r\n", declared).into_bytes();
+        run(407, head, "valid", body, 0, 1, true, &mut rng, sink);
     }
     // refusal bodies from empty to far beyond the cap
     for len in [0usize, 1, 100, cap - 1, cap, cap + 1, 3 * cap, 1 << 20] {
